@@ -211,7 +211,7 @@ impl<F: Fl> World<F> {
                     if F::key(n) == id {
                         continue;
                     }
-                    let q = Query { kind: Kind::Bfs, entry: Entry::Search, target: Some(id), transpose: false, meth: Meth::Plain, repeat: false };
+                    let q = Query { kind: Kind::Bfs, entry: Entry::Search, target: Some(id), transpose: false, meth: Meth::Plain, repeat: false, late: false };
                     let mut cb = |_: K, _: K, _: EV| true;
                     if let Ok((SRes::Node(k), hs)) = F::search_handles(n, &q, &mut cb) {
                         if k == id && !hs.is_empty() {
